@@ -14,7 +14,7 @@ reference (crossing order) and of every caller-owned message.
   cupd <id> <k> <umask> <resetmask> <before> <after> <expect|-> <flags>   cdel <id> <expect|-> <flags>
   cget <id> <rmask>   clist <rmask>   cpull <rmask> <uo>   cpullid <id> <rmask> <uo>   cclose <i>
   audit
-  ev reset | ev sub <lossy> <mask> | ev send <ADD|UPDATE|REMOVE|REPLACE> <id> <old|-> <new|-> | ev audit
+  ev reset | ev sub <lossy> <mask> | ev subi <mask> (backpressure subscriber with the include filter `token is even`) | ev send <ADD|UPDATE|REMOVE|REPLACE> <id> <old|-> <new|-> | ev audit
   ev vsub <lossy> <mask> | ev vsend <new>     (subscribers / writes of a resource.Value; events print as UPDATE,0,-,<new>)
      (event objects, Events.lean: after a send every backpressure subscriber forwards, every lossy one merges in;
       the answer lists, per backpressure subscriber, `#<canonical event ref>:<event>` of what its consumer received)
